@@ -78,6 +78,15 @@ def gen_case_rng(rng, mode):
 
 
 def gen_case(base, i, mode='plain'):
+    if mode == 'xproc':
+        case = gen_case_rng(core.rng_for(base, 'C12', i, 'xproc'), 'plain')
+        decoy = gen_case_rng(core.rng_for(base, 'C12', i, 'xproc-decoy'),
+                             'plain')
+        decoy['ops'] = decoy['ops'][:12] + [
+            {'op': 'check', 'e': e} for e in range(len(decoy['worlds']))]
+        case['decoy'] = decoy
+        case['mode'] = 'xproc'
+        return case
     return gen_case_rng(core.rng_for(base, 'C12', i, mode), mode)
 
 
@@ -164,6 +173,9 @@ def execute(case, backend='sim', record=False):
     simfs.use(fs)
     viol = None
     states = set()
+    rec = []
+    if case.get('decoy') is not None and backend != 'inner':
+        return execute_pair(case)
     try:
         sims = [W.DiskSim(w, fs=fs, sub='e%d' % i, digest=dg)
                 for i, w in enumerate(worlds)]
@@ -247,6 +259,8 @@ def execute(case, backend='sim', record=False):
             cnt.hit('isolation_checks')
             cnt.hit('decisions_compared', len(t))
             dg.add('check', step, i, t, tt)
+            if record:
+                rec.append([step, i, t, sorted(printed(E[i]).items())])
             for p, a, b in zip(sims[i].probes, t, tt):
                 if a != b:
                     judge(step, 'not-isolated', enforcer=i,
@@ -298,7 +312,104 @@ def execute(case, backend='sim', record=False):
         simfs.use(None)
     return {'violation': viol, 'digest': dg.hex(), 'counters': dict(cnt),
             'states': sorted(states), 'simtime': simtime, 'events': dg.n,
+            'observations': rec}
+
+
+def execute_pair(case):
+    """Cross-process differential run for state that outlives enforcers:
+    a fresh interpreter (no warm-up, nothing of the library executed yet)
+    forks two children; A executes the case alone, B first executes a decoy
+    case (same policy names, other check strings, files and options) and
+    then the case. Every decision table and printed rule store observed in
+    the case must be identical in A and B: enforcers that existed earlier
+    in the process must not influence later ones."""
+    import json
+    import os
+    import subprocess
+    import sys
+    import tempfile
+    fd, path = tempfile.mkstemp(prefix='verif_c12pair_', suffix='.json')
+    try:
+        with os.fdopen(fd, 'w') as f:
+            json.dump(case, f)
+        env = dict(os.environ)
+        env['PYTHONHASHSEED'] = '0'
+        out = subprocess.run(
+            [sys.executable, os.path.join(core.VERIF, 'sim', 'run.py'),
+             'c12pair', path], env=env, capture_output=True, text=True,
+            timeout=600)
+    finally:
+        try:
+            os.unlink(path)
+        except OSError:
+            pass
+    if out.returncode != 0:
+        raise core.HarnessError('c12pair failed: %s' % out.stderr[-1500:])
+    res = json.loads(out.stdout.strip().splitlines()[-1])
+    viol = None
+    if res['a_violation'] is not None:
+        viol = res['a_violation']
+    elif res['diff'] is not None:
+        viol = {'prop': 'C12', 'sig': 'influenced-by-earlier-enforcers',
+                'step': res['diff'].get('step'), 'detail': res['diff']}
+    cnt = {'xproc_pairs': 1, 'fault:earlier_enforcers_in_process': 1,
+           'isolation_checks': res['n_obs'],
+           'probe:multi_enforcer_runs': 1,
+           'probe:shared_deprecated_rule_across_enforcers': 1}
+    return {'violation': viol, 'digest': res['digest'], 'counters': cnt,
+            'states': [], 'simtime': 0.0, 'events': res['n_obs'],
             'observations': []}
+
+
+def pair_main(path):
+    """Body of `run.py c12pair`: see execute_pair."""
+    import json
+    import os
+    with open(path) as f:
+        case = json.load(f)
+    core.boot()
+    inner = {k: v for k, v in case.items() if k != 'decoy'}
+
+    def child(run_decoy):
+        r, w = os.pipe()
+        pid = os.fork()
+        if pid == 0:
+            try:
+                os.close(r)
+                if run_decoy:
+                    execute(case['decoy'], backend='inner')
+                res = execute(inner, backend='inner', record=True)
+                with os.fdopen(w, 'w') as f:
+                    json.dump({'obs': res['observations'],
+                               'violation': res['violation'],
+                               'digest': res['digest']}, f, default=repr)
+            finally:
+                os._exit(0)
+        os.close(w)
+        with os.fdopen(r) as f:
+            data = f.read()
+        os.waitpid(pid, 0)
+        if not data:
+            raise core.HarnessError('c12pair child died')
+        return json.loads(data)
+    a = child(False)
+    b = child(True)
+    diff = None
+    if a['obs'] != b['obs']:
+        for x, y in zip(a['obs'], b['obs']):
+            if x != y:
+                diff = {'step': x[0], 'enforcer': x[1],
+                        'alone': [p for p, q in zip(x[3], y[3]) if p != q][:3],
+                        'after_decoy': [q for p, q in zip(x[3], y[3])
+                                        if p != q][:3],
+                        'tables_differ': x[2] != y[2]}
+                break
+        else:
+            diff = {'step': None, 'lengths': [len(a['obs']), len(b['obs'])]}
+    print(json.dumps({'a_violation': a['violation'], 'diff': diff,
+                      'n_obs': len(a['obs']), 'digest': a['digest']},
+                     default=repr))
+    return 0
 
 
 def _threaded_phase(case, sims, E, fs, dg, cnt, judge):
@@ -350,8 +461,10 @@ def _threaded_phase(case, sims, E, fs, dg, cnt, judge):
 # ------------------------------------------------------ engine interface
 
 PROPS = ('C12',)
-TIERS = {'C12': {'quick': [('plain', 1800), ('threads', 400)],
-                 'thorough': [('plain', 150000), ('threads', 40000)]}}
+TIERS = {'C12': {'quick': [('plain', 1800), ('threads', 400),
+                           ('xproc', 64)],
+                 'thorough': [('plain', 150000), ('threads', 40000),
+                              ('xproc', 3000)]}}
 
 
 def make_case(base, prop, i, mode):
@@ -369,12 +482,18 @@ def run_one(base, i, prop=None, mode='plain'):
             c.get('isolation_checks', 0) > 0}
 
 
+def warm_up_noop():
+    pass
+
+
 def case_size(case):
     return len(case['ops'])
 
 
 def shrink(case, sig, budget=300):
     calls = [0]
+    if case.get('decoy') is not None:
+        budget = 40      # each execution is a fresh interpreter
 
     def fails(c):
         calls[0] += 1
